@@ -55,9 +55,30 @@ def _callee_record(fx, t):
     return None
 
 
+def _ready_arm(blocks, target, dest):
+    """the block the poll loop continues in when the polled future is Ready: `target` computes the discriminant of the
+    poll result and switches on it — an inlined callee that has returned *is* ready, so its return goes straight to that
+    arm (the Pending arm would re-enter the callee: an infeasible cycle for the path-based rules)"""
+    if target is None or target >= len(blocks):
+        return target
+    tb = blocks[target]
+    sw = tb["t"]
+    if sw.get("k") != "switch" or sw["o"].get("k") not in ("move", "copy"):
+        return target
+    dl = sw["o"]["p"]
+    for st in tb["s"]:
+        if st["k"] == "assign" and st["p"] == dl and st["r"]["k"] == "discr" and st["r"].get("p") == dest and st["r"].get("adt") == "core::task::poll::Poll":
+            for val, b_ in sw["targets"]:
+                if st["r"].get("variants", {}).get(val) == "Ready":
+                    return b_
+    return target
+
+
 def _splice(rec, bi, callee, glue, dest, target, unwind, stack, ret_wrap=None):
     """append callee's blocks to rec; block bi gets the glue statements and a goto to the callee's entry"""
     blocks, locs = rec["blocks"], rec["locals"]
+    if ret_wrap is not None:
+        target = _ready_arm(blocks, target, dest)
     loff, boff = len(locs), len(blocks)
     cb = callee["pre"]
     locs.extend(cb["locals"])
@@ -180,7 +201,7 @@ def inlined(fx, f, pred=None, depth=3, stage="pre"):
                 for o in os_:
                     if o.kind == "call" and not o.proj:
                         ct = b.call_at(o)
-                        h = _callee_record(fx, ct)
+                        h = _callee_record(fx, ct) if not (ct.get("trait") and not ct.get("resolved")) else None
                         kids = [c for c in fx.children_of(h["def"]) if c["kind"] == "coroutine"] if (h is not None and h.get("is_async")) else []
                         if len(kids) == 1 and "pre" in kids[0]:
                             cands.add((o.site[0], kids[0]["def"], h["def"]))
@@ -210,7 +231,9 @@ def inlined(fx, f, pred=None, depth=3, stage="pre"):
                             return [("ENV", loff + 1, env)]
                         ret_wrap = {"k": "agg", "ak": "adt", "def": "core::task::poll::Poll", "variant": "Ready", "fields": ["0"]}
             else:
-                h = _callee_record(fx, t)
+                # (a trait method that is not resolved to an implementation is dispatched on a type parameter or a trait
+                # object: the trait's provided body — if any — is not necessarily what runs)
+                h = _callee_record(fx, t) if not (t.get("trait") and not t.get("resolved")) else None
                 if h is not None and h["kind"] in ("fn", "assoc_fn") and not h.get("is_async"):
                     g = h
 
